@@ -308,7 +308,53 @@ def search(V, accel, kind, bits, oh, ow, od, kw, kh, lut, sx=1, sy=1, ifm_d=None
     return cl
 
 
-FUNCS = {"layout": layout, "invalid_rejected": invalid_rejected, "query": query, "search": search}
+def sched_search(V, accel, kind, lut, oh, ow, od):
+    """the block configuration the SCHEDULER selects for an operation (SchedulerOperation._get_block_config -> find_block_config) is one the
+    command-stream generator accepts for the same operation: it re-validates through try_block_config with the generator's description of the
+    operation (two banks kept for the lookup table exactly when the operation has one) and gets the same layout.  Concrete search, symbolic OFM
+    height; the scheduler operation is a stand-in exposing what _get_block_config reads."""
+    import ethosu.vela.npu_performance  # noqa: F401
+    import ethosu.vela.architecture_allocator as aa
+    import ethosu.vela.scheduler as sch
+    from ethosu.vela.architecture_features import Block
+    from ethosu.vela.operation import Kernel, NpuBlockType, Op
+    from ethosu.vela.shape4d import Shape4D
+    from ethosu.vela.ethos_u55_regs.ethos_u55_regs import resampling_mode
+    from ethosu.vela.data_type import DataType
+    from harness.c04 import arch_for
+
+    arch = arch_for(accel)
+    V.int("unused", 0, 0)
+    optype = {"conv": Op.Conv2DBias, "dw": Op.DepthwiseConv2DBias, "pool": Op.MaxPool, "ew": Op.Add}[kind]
+    bt = optype.npu_block_type
+    kernel = Kernel(3, 3) if kind in ("conv", "dw") else Kernel(1, 1)
+    me = _O(arch=arch, op_type=optype, ifm=_O(dtype=DataType.int8), kernel=kernel, resampling_mode=resampling_mode.NONE,
+            parent_op=_O(activation_lut=object() if lut else None, has_scaling=lambda: True))
+    ifm_d = od if kind != "conv" else 24
+    ifm2 = Shape4D(1, oh, ow, ifm_d) if kind == "ew" else None
+    cfg = sch.SchedulerOperation._get_block_config(me, Shape4D(1, oh, ow, ifm_d), ifm2, False, Shape4D(1, oh, ow, od))
+    if cfg is None:
+        return [("the scheduler finds a configuration for a plain operation", False)]
+    ob = cfg.ofm_block
+    re = aa.try_block_config(Block(ob.width, ob.height, ob.depth), arch, bt, Block(ow, oh, od), Block(ow, oh, ifm_d),
+                             Block(ow, oh, ifm_d) if kind == "ew" else None, False, 8, cfg.is_partkernel, kernel, 2 if lut else 0, True, resampling_mode.NONE)
+    cl = [("the scheduler's choice is accepted with the generator's description of the operation", re is not None)]
+    if re is not None:
+        cl.append(("same shared-buffer layout as the generator will program", (re.layout.ib_end, re.layout.ab_start, re.layout.ib_start2, re.layout.lut_start) ==
+                   (cfg.layout.ib_end, cfg.layout.ab_start, cfg.layout.ib_start2, cfg.layout.lut_start)))
+    banks = HW[accel][2]
+    if lut:
+        cl.append(("the lookup table's two banks stay outside every partition", cfg.layout.lut_start <= banks - 2 and cfg.layout.ib_end <= cfg.layout.lut_start
+                   and cfg.layout.ab_start <= cfg.layout.lut_start))
+    return cl
+
+
+class _O:
+    def __init__(self, **kw):
+        self.__dict__.update(kw)
+
+
+FUNCS = {"sched_search": sched_search, "layout": layout, "invalid_rejected": invalid_rejected, "query": query, "search": search}
 
 
 def instances(tier, seed):
@@ -355,6 +401,11 @@ def instances(tier, seed):
             out.append(dict(key="layout/%s/%s%d/b%dx%d/k%dx%dd%d/s%dx%s/l%d_sc%d_u%d_p%d" % (c["accel"], c["kind"], c["bits"], c["bh"], c["bw"], c["kh"], c["kw"],
                                                                                          c["dil"], c["stride"], c.get("stride_y", c["stride"]), c["lut"], c["scalar"], c["upscale"], c["partk"]),
                             fn="layout", params=c))
+        for kind in ("conv", "dw", "pool", "ew"):
+            for lut in (0, 1):
+                for (oh, ow, od) in ((1, 32, 64), (16, 16, 32), (8, 64, 16)):
+                    out.append(dict(key="sched_search/%s/%s/lut%d/%dx%dx%d" % (accel, kind, lut, oh, ow, od), fn="sched_search",
+                                    params=dict(accel=accel, kind=kind, lut=lut, oh=oh, ow=ow, od=od)))
         for which in ("w", "h", "d"):
             out.append(dict(key="invalid_rejected/%s/%s" % (accel, which), fn="invalid_rejected", params=dict(accel=accel, which=which)))
         for kind in ("conv", "dw", "pool", "ew"):
